@@ -491,7 +491,7 @@ func (e *Engine) dependsOn(v ssa.Value, pred func(ssa.Value) bool, depth int) bo
 		// a load from a local variable: follow what was stored into it
 		if ld, ok := x.(*ssa.UnOp); ok && ld.Op == token.MUL {
 			if al := rootAlloc(ld.X); al != nil {
-				for _, sv := range storesInto(al) {
+				for _, sv := range storesIntoPath(al, addrPath(ld.X)) {
 					if visit(sv, d) {
 						return true
 					}
@@ -525,6 +525,70 @@ func rootAlloc(addr ssa.Value) *ssa.Alloc {
 		}
 	}
 	return nil
+}
+
+// addrPath: the access path (field indexes; -1 for an element) from the root
+// local variable to the addressed part.
+func addrPath(addr ssa.Value) []int {
+	var rev []int
+	for i := 0; i < 8; i++ {
+		switch x := addr.(type) {
+		case *ssa.FieldAddr:
+			rev = append(rev, x.Field)
+			addr = x.X
+			continue
+		case *ssa.IndexAddr:
+			rev = append(rev, -1)
+			addr = x.X
+			continue
+		}
+		break
+	}
+	out := make([]int, len(rev))
+	for i := range rev {
+		out[len(rev)-1-i] = rev[i]
+	}
+	return out
+}
+
+// storesIntoPath: every value stored into the part of the local variable
+// named by path, into an enclosing part, or into a sub-part of it
+// (field-sensitive: a store to uc.A is not a definition of uc.B).
+func storesIntoPath(al *ssa.Alloc, path []int) []ssa.Value {
+	var out []ssa.Value
+	compatible := func(p []int) bool {
+		n := len(p)
+		if len(path) < n {
+			n = len(path)
+		}
+		for i := 0; i < n; i++ {
+			if p[i] != path[i] {
+				return false
+			}
+		}
+		return true
+	}
+	var walk func(v ssa.Value, p []int)
+	walk = func(v ssa.Value, p []int) {
+		refs := v.Referrers()
+		if refs == nil || len(p) > 4 || !compatible(p) {
+			return
+		}
+		for _, ref := range *refs {
+			switch y := ref.(type) {
+			case *ssa.Store:
+				if y.Addr == v {
+					out = append(out, y.Val)
+				}
+			case *ssa.FieldAddr:
+				walk(y, append(append([]int{}, p...), y.Field))
+			case *ssa.IndexAddr:
+				walk(y, append(append([]int{}, p...), -1))
+			}
+		}
+	}
+	walk(al, nil)
+	return out
 }
 
 // storesInto: every value stored into the local variable or a part of it.
